@@ -221,8 +221,9 @@ def check_C07():
     broken = proof_part(ctx, "props/C07.v", ["proofs/C07_range.v", "proofs/C01_ops.v", "proofs/SpecExec_sound.v", "proofs/C11_table.v", "proofs/C11_lists.v",
                                              "proofs/X_basic.v", "proofs/X_inv.v", "proofs/X_c13.v", "proofs/X_own.v", "proofs/X_chain.v", "proofs/X_c04.v",
                                              "proofs/X_lin.v", "proofs/X_resize.v", "proofs/X_count.v", "proofs/X_range.v", "XMachine.v", "props/C03.v", "proofs/XS_range.v", "XMachineS.v",
-                                             "proofs/CX_product2.v", "proofs/CX_mapof2.v", "proofs/CX_map2.v", "proofs/CX_range.v", "proofs/CX_range2.v", "proofs/CX_range3.v", "proofs/CX_range_ex.v", "proofs/CX_rangeS.v", "proofs/CX_rangeS_ex.v", "props/C07X.v"], cov)
+                                             "proofs/CX_product2.v", "proofs/CX_mapof2.v", "proofs/CX_map2.v", "proofs/CX_range.v", "proofs/CX_range2.v", "proofs/CX_range3.v", "proofs/CX_range_ex.v", "proofs/CX_rangeS.v", "proofs/CX_rangeS_ex.v", "props/C07X.v", "proofs/CX_rangeS2.v", "proofs/CX_rangeS2_ex.v", "props/C07XS.v"], cov)
     extra_props(ctx, "props/C07X.v", cov, broken)
+    extra_props(ctx, "props/C07XS.v", cov, broken)
     cache_seq_part(ctx, "C07", cov, N(ctx, 1200, 20000), broken)
     table_part(ctx, "C07", cov, N(ctx, 60, 600), [])
     # on the real code, all containers: every traversal of every schedule is checked (lincheck range-check: no key twice, only
@@ -501,9 +502,11 @@ def check_C02():
     ctx = Ctx("C02"); cov = {}
     broken = proof_part(ctx, "props/C02.v", ["proofs/C02_good.v", "proofs/C02_methods.v", "proofs/C02_lin.v", "proofs/C01_sim.v", "proofs/C01_ops.v", "Lin.v", "proofs/CX_trans.v", "proofs/CX_compose.v", "proofs/CX_product.v", "proofs/CX_mapof.v", "proofs/CX_map.v", "proofs/C02_methods_of.v", "proofs/C02_lin_gen.v", "proofs/C02_lin_of.v", "proofs/CX_cacheof.v", "proofs/CX_product2.v", "proofs/CX_mapof2.v", "proofs/CX_map2.v", "proofs/X_linearizable2.v", "proofs/XS_linearizable2.v", "proofs/X_linearizable.v", "proofs/XS_linearizable.v", "XMachine.v", "XMachineS.v", "proofs/SkelDefs.v", "proofs/SkelTac.v", "proofs/Skel.v", "proofs/SkelMap.v",
                                              "LinT.v", "ConcT.v", "proofs/LinT_facts.v", "proofs/LinT_tests.v", "proofs/C02T_good.v", "proofs/C02T_methods.v", "proofs/C02T_lin.v", "proofs/C02T_main.v", "proofs/C02T_methods_of.v", "proofs/C02T_ex.v", "props/C02T.v",
-                                             "proofs/CXT_compose.v", "proofs/CXT_product.v", "proofs/CXT_mapof.v", "proofs/CXT_map.v", "proofs/CXT_ex.v", "props/C02TX.v"], cov)
+                                             "proofs/CXT_compose.v", "proofs/CXT_product.v", "proofs/CXT_mapof.v", "proofs/CXT_map.v", "proofs/CXT_ex.v", "props/C02TX.v",
+                                             "LinF.v", "proofs/C02F_map.v", "proofs/C02F_smap.v", "proofs/C02F_trans.v", "proofs/C02F_compose.v", "proofs/C02F_lin.v", "proofs/C02F_mapof.v", "proofs/C02F_smachine.v", "proofs/C08X_product.v", "proofs/C08X_mapof.v", "proofs/C08X_map.v", "props/C02F.v"], cov)
     extra_props(ctx, "props/C02T.v", cov, broken)
     extra_props(ctx, "props/C02TX.v", cov, broken)
+    extra_props(ctx, "props/C02F.v", cov, broken)
     n = N(ctx, 2500, 40000)
     sched_part(ctx, "C02", cov, [("Cache", n, []), ("CacheOf_int", n, []), ("CacheOf_str", n // 2, ["-sched", "pct"]),
                                  ("Cache", n // 2, ["-threads", "4", "-ops", "4", "-sched", "mix"])])
